@@ -846,34 +846,25 @@ def columns_rule(ctx: Ctx) -> None:
     rr = [r for r in body_walk(c.node) if isinstance(r, ast.Return)]
     ctx.expect("R-TABLE", c, "columns reports that count", len(rr) == 1 and self_attr(rr[0].value, c.param_names()[0]) == "_columns", "", "", node=c.node)
     g = p.func(f"{ND}._get_columns")
-    from .common import parent as _parent
-    nfind = 0
-    for sl in [x for x in body_walk(g.node) if isinstance(x, ast.Subscript) and isinstance(x.slice, ast.Slice)]:
-        for bound in (sl.slice.lower, sl.slice.upper):
-            if bound is None:
-                continue
-            e = inline(bound, g)
-            if any(isinstance(c, ast.Call) and isinstance(c.func, ast.Attribute) and c.func.attr in ("find", "rfind") for c in ast.walk(e)):
-                nfind += 1
-                # guarded by an enclosing conditional expression / if on the same value being >= 0 (or > 0)
-                guarded = False
-                node, child = _parent(g, sl), sl
-                while node is not None and not isinstance(node, ast.stmt):
-                    if isinstance(node, ast.IfExp) and child is node.body:
-                        t = node.test
-                        if isinstance(t, ast.Compare) and len(t.ops) == 1 and isinstance(t.ops[0], (ast.Gt, ast.GtE, ast.NotEq)) and ast.unparse(inline(t.left, g)) == ast.unparse(e):
-                            guarded = True
-                    child, node = node, _parent(g, node)
-                for a, pol in facts(ctx, g, sl):
-                    if pol and isinstance(a, ast.Compare) and isinstance(a.ops[0], (ast.Gt, ast.GtE, ast.NotEq)) and ast.unparse(inline(a.left, g)) == ast.unparse(e):
-                        guarded = True
-                ctx.expect("R-NULL", g, f"str.find() result is checked for 'not found' before it bounds the slice {src(sl, 40)}", guarded, "",
-                           f"{src(sl)}: find() returns -1 when there is no comma, and the slice then silently drops the last character (single-measure note data)", node=sl)
-    ctx.floor("find()-bounded slices in _get_columns", nfind, 1)
-    rr = [r for r in body_walk(g.node) if isinstance(r, ast.Return)]
-    okg = len(rr) == 1 and isinstance(rr[0].value, ast.Call) and isinstance(rr[0].value.func, ast.Name) and rr[0].value.func.id == "len"
-    ex = [x for x in calls(g) if callee_name(ctx, g, x).endswith("NoteData._extract_keysound_indices")]
-    ctx.expect("R-TABLE", g, "the width is the length of the first row with keysound brackets removed", okg and len(ex) == 1, "", "", node=g.node)
+    from .tables import Dec, closed, judge as tjudge, sums_of as tsums
+    n_ = g.param_names()[0]
+    gs = tsums(ctx, g)
+    F = f"{n_}.find(',')"
+    G = f"{F} > 0"
+
+    def out(s_):
+        k, v = s_.terminal()
+        v = closed(s_, v)
+        return "return " + (ast.unparse(v) if v is not None else "None") if k == "return" else k
+
+    def spec(a):
+        first = f"{n_}[:{F}]" if a[G] else n_
+        return f"return len(NoteData._extract_keysound_indices({first}.strip().splitlines()[0].strip()))"
+
+    eqv = {f"{F} >= 0": (G, True), f"{F} != -1": (G, True), f"{F} == -1": (G, False), f"{F} < 0": (G, False), f"',' in {n_}": (G, True), f"{F} >= 1": (G, True), f"{F} < 1": (G, False)}
+    tjudge(ctx, "R-NULL", g, "the width is the length of the first row (first measure, first line, stripped) with keysound brackets removed; str.find() is checked for 'not found' before it bounds the slice",
+           [Dec(dict(s_.plain_assign()), out(s_), s_) for s_ in gs], [G], spec, equiv=eqv,
+           why="find() returns -1 when there is no comma, and the slice then silently drops the last character (single-measure note data)")
 
 
 def grouping_guards(ctx: Ctx) -> None:
